@@ -230,7 +230,54 @@ def _judge_stacking(c, errs):
     return None
 
 
-STREAMS = [s10_windows, s10_stacking]
+def s10_sharp(ctx):
+    """direction changes: a three-vertex trace with a turn of phi degrees between its segments (0 = straight)"""
+    from shapely.geometry import LineString, Polygon
+
+    res = StreamResult("S10-sharp", rule="three-vertex traces with a turn of 5..75 degrees (clearly below every configured angle: SHARP TURNS must NOT be reported) or "
+                       "105..175 degrees (beyond the configured 100 between consecutive segments: must be reported), segment length ratios 1/4..4, 12 orientations, "
+                       "both digitising directions, offsets 0 / 1e4 / 1e7, default angles (135 / 100); non-trivial = turn beyond the configured angle")
+    rng = rng_for(ctx.seed, "S10s")
+    cases = []
+    for _ in range(budget(ctx.tier, 150, 3000)):
+        beyond = rng.random() < 0.5
+        phi = rng.uniform(105.0, 175.0) if beyond else rng.uniform(5.0, 75.0)
+        if rng.random() < 0.5:
+            phi = -phi
+        L1, L2 = rng.choice([1.0, 2.0, 4.0, 8.0]), rng.choice([1.0, 2.0, 4.0, 8.0])
+        ang = rng.choice([0, 30, 45, 90, 135, 180, 200, 270, 300, 10, 77, 333])
+        off = rng.choice([(0.0, 0.0), (1e4, -2e4), (1e7, 1e7)])
+        pts = [(0.0, 0.0), (L1, 0.0), (L1 + L2 * math.cos(math.radians(phi)), L2 * math.sin(math.radians(phi)))]
+        pts = [rot(p, ang, off) for p in pts]
+        if rng.random() < 0.5:
+            pts = pts[::-1]
+        h = 40.0
+        area = [rot(p, 0, off) for p in [(-h, -h), (h, -h), (h, h), (-h, h), (-h, -h)]]
+        cases.append({"stream": "S10-sharp", "phi": phi, "beyond": beyond, "geoms": [pts], "area": area, "t": 0.01})
+    args = [([LineString(g).wkt for g in c["geoms"]], c["t"], Polygon(c["area"]).wkt) for c in cases]
+    with mp.get_context("fork").Pool(16, maxtasksperchild=32) as pool:
+        outs = pool.map(validate, args, chunksize=8)
+    for c, errs in zip(cases, outs):
+        res.evaluations += 1
+        res.nontrivial += int(c["beyond"])
+        d = _judge_sharp(c, errs)
+        if d is not None:
+            res.disagreements.append(d)
+    res.samples = [{k: cases[0][k] for k in ("phi", "geoms")}]
+    return res
+
+
+def _judge_sharp(c, errs):
+    if isinstance(errs, str):
+        return Disagreement("S10-sharp", c, "completes", errs, True, "validation raised")
+    got = "SHARP TURNS" in errs[0]
+    if got != c["beyond"]:
+        return Disagreement("S10-sharp", c, "SHARP TURNS" if c["beyond"] else "no SHARP TURNS", errs[0], True,
+                            f"a turn of {abs(c['phi']):.1f} degrees is {'not ' if c['beyond'] else ''}reported")
+    return None
+
+
+STREAMS = [s10_windows, s10_stacking, s10_sharp]
 
 
 def replay_finding(ctx, k):
@@ -249,6 +296,8 @@ def replay(ctx, stream, case):
     errs = validate(([LineString(g).wkt for g in case["geoms"]], case["t"], Polygon(case["area"]).wkt))
     if stream == "S10-stacking":
         return _judge_stacking(case, errs)
+    if stream == "S10-sharp":
+        return _judge_sharp(case, errs)
     res = StreamResult("replay")
     # re-judge through the stream logic on this single case
     c = dict(case)
